@@ -38,6 +38,24 @@ theorem go_onchain_in_time_received (env : Env) (sets : Sets) (height : Nat) (pl
     (shouldGoOnChain_iff env h _ height hnw hlt).mpr ⟨hdue, Or.inl hdir⟩
   exact checkLocal_ne_nil_of_in env sets height pl h hm hpre hs
 
+/-- `go_onchain_in_time` (offered HTLC that is only on the peer's current / pending commitment,
+    e.g. an add we signed that is not yet on our commitment, or a removal the peer has not yet
+    signed): if every copy of it is at or past its cut-off (unwrapped domain), forwarded or past
+    grace, and its preimage is unknown, the chain-trigger action map is non-empty. -/
+theorem go_onchain_in_time_dangling (env : Env) (sets : Sets) (height : Nat) (pl : Bool) (i : Nat)
+    (hi : i ∈ (sets.rem.outgoing ++ sets.pend.outgoing).map (·.index))
+    (hnl : i ∉ sets.loc.outgoing.map (·.index))
+    (hall : ∀ x ∈ sets.rem.outgoing ++ sets.pend.outgoing, x.index = i →
+      env.deltaOut ≤ x.refundTimeout ∧ x.refundTimeout < U32 ∧
+      x.refundTimeout - env.deltaOut ≤ height ∧
+      (env.isForwarded x.index = true ∨ env.pastGrace = true) ∧
+      env.preimageKnown x.hash = false) :
+    checkLocal env height .chain sets false pl ≠ [] := by
+  apply checkLocal_ne_nil_of_dangling env sets height pl i hi hnl
+  intro x hx hxi
+  obtain ⟨h1, h2, h3, h4, h5⟩ := hall x hx hxi
+  exact ⟨(shouldGoOnChain_iff env x _ height h1 h2).mpr ⟨h3, Or.inr h4⟩, h5⟩
+
 /-- … and a non-empty action map on a block epoch in `StateDefault` means `ForceCloseChan` is
     called exactly once during that `advanceState`, whatever `ForceCloseChan` returns, and the
     arbitrator leaves `StateDefault`. -/
@@ -72,6 +90,33 @@ theorem never_for_unclaimable (env : Env) (sets : Sets) (height : Nat) (pl : Boo
       env.preimageKnown h.hash = false ∨ shouldGoOnChain env h env.deltaIn height = false) :
     checkLocal env height .chain sets false pl = [] :=
   checkLocal_eq_nil env sets height pl hout hin
+
+/-- the same with the hypotheses stated arithmetically (unwrapped domain) instead of through the
+    model's own `shouldGoOnChain`: every offered HTLC on any of the three commitments is strictly
+    before `RefundTimeout − OutgoingBroadcastDelta`, and every received HTLC on our commitment
+    either has an unknown preimage (whatever the height) or is strictly before
+    `RefundTimeout − IncomingBroadcastDelta`. -/
+theorem never_for_unclaimable_arith (env : Env) (sets : Sets) (height : Nat) (pl : Bool)
+    (hout : ∀ h ∈ sets.loc.outgoing ++ sets.rem.outgoing ++ sets.pend.outgoing,
+      env.deltaOut ≤ h.refundTimeout ∧ h.refundTimeout < U32 ∧ height < h.refundTimeout - env.deltaOut)
+    (hin : ∀ h ∈ sets.loc.incoming, env.preimageKnown h.hash = false ∨
+      (env.deltaIn ≤ h.refundTimeout ∧ h.refundTimeout < U32 ∧ height < h.refundTimeout - env.deltaIn)) :
+    checkLocal env height .chain sets false pl = [] := by
+  have hf : ∀ (h : Htlc) (d : Nat), d ≤ h.refundTimeout → h.refundTimeout < U32 →
+      height < h.refundTimeout - d → shouldGoOnChain env h d height = false := by
+    intro h d h1 h2 h3
+    cases hc : shouldGoOnChain env h d height
+    · rfl
+    · have := ((shouldGoOnChain_iff env h d height h1 h2).mp hc).1
+      omega
+  apply checkLocal_eq_nil
+  · intro h hh
+    obtain ⟨h1, h2, h3⟩ := hout h hh
+    exact hf h _ h1 h2 h3
+  · intro h hh
+    rcases hin h hh with hp | ⟨h1, h2, h3⟩
+    · exact Or.inl hp
+    · exact Or.inr (hf h _ h1 h2 h3)
 
 /-- … and the arbitrator stays in `StateDefault` without calling `ForceCloseChan`, failing
     anything upstream or creating resolvers. -/
@@ -171,13 +216,15 @@ theorem exactly_one_resolver_created_received (env : Env) (k : SetKey) (sets : S
 theorem exactly_one_resolver_arb (env : Env) (a : Arb) (cs : CommitSet) (res : Resolutions)
     (height : Nat) (choice : AState → Bool) (isLocal : Bool)
     (hpre : a.state = .default ∨ a.state = .broadcastCommit ∨ a.state = .commitmentBroadcasted)
-    (hb : res.breach = false) (hne : (res.isEmpty && cs.sets.isEmpty) = false)
+    (hb : res.breach = false)
     (hwf : WFSet (cs.sets.get cs.key))
     (h : Htlc) (hm : h ∈ (cs.sets.get cs.key).outgoing) (hnd : h.dust = false) :
     ((handleClose env a
         (if isLocal then .localForce cs res height else .remoteForce cs res height) choice).2.resolvers.filter
         (fun r => (r.1 == .timeout || r.1 == .outContest) && r.2 == h.index)).length
       = if res.outOuts.contains (outU32 h) then 1 else 0 := by
+  have hne : (res.isEmpty && cs.sets.isEmpty) = false := by
+    rw [sets_not_empty_of_mem cs.sets cs.key h (Or.inl hm)]; simp
   rw [close_resolvers env a cs res height choice isLocal hpre hb hne]
   exact resolvers_out_count env cs.key cs.sets height _ _ res hb hwf (by cases isLocal <;> simp) h hm hnd
 
@@ -185,13 +232,15 @@ theorem exactly_one_resolver_arb (env : Env) (a : Arb) (cs : CommitSet) (res : R
 theorem exactly_one_resolver_arb_received (env : Env) (a : Arb) (cs : CommitSet) (res : Resolutions)
     (height : Nat) (choice : AState → Bool) (isLocal : Bool)
     (hpre : a.state = .default ∨ a.state = .broadcastCommit ∨ a.state = .commitmentBroadcasted)
-    (hb : res.breach = false) (hne : (res.isEmpty && cs.sets.isEmpty) = false)
+    (hb : res.breach = false)
     (hwf : WFSet (cs.sets.get cs.key))
     (h : Htlc) (hm : h ∈ (cs.sets.get cs.key).incoming) (hnd : h.dust = false) :
     ((handleClose env a
         (if isLocal then .localForce cs res height else .remoteForce cs res height) choice).2.resolvers.filter
         (fun r => (r.1 == .inContest || r.1 == .success) && r.2 == h.index)).length
       = if res.inOuts.contains (outU32 h) then 1 else 0 := by
+  have hne : (res.isEmpty && cs.sets.isEmpty) = false := by
+    rw [sets_not_empty_of_mem cs.sets cs.key h (Or.inr hm)]; simp
   rw [close_resolvers env a cs res height choice isLocal hpre hb hne]
   exact resolvers_in_count env cs.key cs.sets height _ _ res hb hwf (by cases isLocal <;> simp) h hm hnd
 
@@ -253,7 +302,10 @@ theorem no_failback_with_output_arb (env : Env) (a : Arb) (cs : CommitSet) (res 
 
 /-- what must be failed upstream when the peer's commitment `confRemote sets b` confirms: offered
     HTLCs that are dust there, and offered HTLCs that exist only on the peer's other commitment
-    and whose preimage is not known. -/
+    and whose preimage is not known.  (An offered HTLC that is on OUR commitment but on neither
+    commitment of the peer is not listed: BOLT-2's update order makes every offered HTLC of our
+    commitment appear on the peer's current commitment, and the code does nothing for such an
+    HTLC; the theorems below therefore say "exactly once for this list, nothing else failed".) -/
 def mustFailRemote (env : Env) (sets : Sets) (b : Bool) : List Nat :=
   ((confRemote sets b).outgoing.filter (·.dust)).map (·.index) ++
   ((otherRemote sets b).outgoing.filter (fun h =>
@@ -327,6 +379,25 @@ theorem dust_failed_once_user_then_local (env : Env) (a : Arb) (res : Resolution
     exact List.mem_map.mpr ⟨h, hm, rfl⟩
   rw [if_pos hin, if_neg hnot]
 
+/-- at-most-once on the paths through `StateCommitmentBroadcasted` to a REMOTE confirmation: we
+    broadcast (user request, or a block whose chain-trigger action map is non-empty) with a
+    working `ForceCloseChan`, then the peer's current or pending commitment confirms. Under the
+    protocol shape "every offered HTLC on our commitment is also on the confirmed peer commitment"
+    no HTLC index is failed upstream twice along the path. (What F2 breaks on these paths is
+    at-LEAST-once, see below; for a LOCAL confirmation at-most-once is false as well, see F2b.) -/
+theorem failed_at_most_once_after_broadcast_remote (env : Env) (a : Arb) (res : Resolutions)
+    (h0 h1 : Nat) (choice : AState → Bool) (b : Bool) (trig : Trigger)
+    (hs : a.state = .default) (hf : a.fcErr = .none) (hb : res.breach = false)
+    (htrig : trig = .user ∨
+      (trig = .chain ∧ checkLocal env h0 .chain a.active false (choice .default) ≠ []))
+    (hshape : ∀ x ∈ a.active.loc.outgoing,
+      x.index ∈ (confRemote a.active b).outgoing.map (·.index))
+    (hwfo : WFSet (otherRemote a.active b)) (i : Nat) :
+    ((advance env a h0 trig none choice advanceFuel).2.fails ++
+      (handleClose env (advance env a h0 trig none choice advanceFuel).1
+        (.remoteForce ⟨remoteKey b, a.active⟩ res h1) choice).2.fails).flatten.count i ≤ 1 :=
+  broadcast_then_remote_at_most_once env a res h0 h1 choice b trig hs hf hb htrig hshape hwfo i
+
 /-! ### Finding F2: the statement is false on the path through StateCommitmentBroadcasted -/
 
 namespace F2
@@ -374,7 +445,7 @@ theorem failed_once_fails_after_broadcast (choice : AState → Bool) :
       Out.append, confRemote, otherRemote, mustFailRemote, prepResolvers, Resolutions.isEmpty,
       Sets.isEmpty, HtlcSet.isEmpty, legacyBreach, classifyDangling, resolverFor]
 
-namespace F2b
+namespace F2dd
 
 /-- offered HTLC 3 on all three commitments with an output; offered HTLC 7 only on the peer's
     pending commitment, dust there, far from expiry. -/
@@ -391,7 +462,7 @@ def afterUser (choice : AState → Bool) : Arb × Out := handleUser F2.env start
 def afterClose (choice : AState → Bool) : Arb × Out :=
   handleClose F2.env (afterUser choice).1 (.localForce ⟨.loc, sets⟩ { outOuts := [0] } 101) choice
 
-end F2b
+end F2dd
 
 /-- Second witness (the ordinary path: user force close, then OUR commitment confirms): offered
     HTLC 7 exists only on the peer's pending commitment and is dust there; it is not near expiry
@@ -399,12 +470,12 @@ end F2b
     classified `FailDust`, which `StateContractClosed` ignores: never failed upstream. HTLC 3 gets
     its resolver. -/
 theorem failed_once_fails_after_broadcast_dangling_dust (choice : AState → Bool) :
-    (F2b.afterUser choice).1.state = .commitmentBroadcasted ∧
-    ((F2b.afterUser choice).2.fails ++ (F2b.afterClose choice).2.fails).flatten.count 7 = 0 ∧
-    (F2b.afterClose choice).2.resolvers = [(.outContest, 3)] ∧
-    (F2b.afterClose choice).1.state = .waitingFullResolution := by
+    (F2dd.afterUser choice).1.state = .commitmentBroadcasted ∧
+    ((F2dd.afterUser choice).2.fails ++ (F2dd.afterClose choice).2.fails).flatten.count 7 = 0 ∧
+    (F2dd.afterClose choice).2.resolvers = [(.outContest, 3)] ∧
+    (F2dd.afterClose choice).1.state = .waitingFullResolution := by
   refine ⟨?_, ?_, ?_, ?_⟩ <;> cases h1 : choice .default <;> cases h2 : choice .contractClosed <;>
-    simp [h1, h2, F2b.afterUser, F2b.afterClose, F2b.start, F2b.sets, F2.env, F2b.h3, F2b.h7,
+    simp [h1, h2, F2dd.afterUser, F2dd.afterClose, F2dd.start, F2dd.sets, F2.env, F2dd.h3, F2dd.h7,
       handleUser, handleClose, advance, advanceFuel, stateStep, checkLocal, checkCommit,
       checkRemote, checkRemoteDangling, checkRemoteDiff, construct, haveChainActions,
       shouldGoOnChain, sub32, U32, classifyOut, classifyIn, Htlc.dust, newHtlcSet, mapOfList,
@@ -423,6 +494,80 @@ example (choice : AState → Bool) :
   rw [this]
   simp [mustFailRemote, confRemote, F2.sets, F2.hRemote, F2.hLocal, newHtlcSet, mapOfList,
     insertByIndex, Htlc.dust]
+
+/-! ### Finding F2b: the peer's two commitments disagree on dust, our commitment confirms -/
+
+namespace F2b
+
+/-- offered HTLC 7 is only on the peer's commitments: dust on the current, output 1 on the pending
+    one (fee change between the two). HTLC 3 is everywhere. -/
+def h3 : Htlc := { index := 3, incoming := false, amt := 5000000, refundTimeout := 900, outputIndex := 0, hash := 1 }
+def h7d : Htlc := { index := 7, incoming := false, amt := 100000, refundTimeout := 900, outputIndex := -1, hash := 2 }
+def h7n : Htlc := { h7d with outputIndex := 1 }
+def sets : Sets := { loc := newHtlcSet [h3], rem := newHtlcSet [h3, h7d], pend := newHtlcSet [h3, h7n] }
+def start : Arb := { state := .default, active := sets }
+
+/-- user force close at height 896 (HTLC 7 is at its cut-off 895), our commitment confirms at 897;
+    `d`/`c` = which remote copy wins in the StateDefault / StateContractClosed computation. -/
+def failsOf (d c : Bool) : List (List Nat) :=
+  let ch : AState → Bool := fun st => if st == .default then d else c
+  let r1 := handleUser F2.env start 896 ch
+  let r2 := handleClose F2.env r1.1 (.localForce ⟨.loc, sets⟩ { outOuts := [0] } 897) ch
+  r1.2.fails ++ r2.2.fails
+
+end F2b
+
+/-- the same inputs, three outcomes: HTLC 7 is failed upstream 0, 1 or 2 times depending only on
+    the Go map iteration order in the two `checkRemoteDanglingActions` calls of the path. -/
+theorem remote_copies_disagree_order_dependent :
+    (F2b.failsOf true false).flatten.count 7 = 0 ∧
+    (F2b.failsOf false false).flatten.count 7 = 1 ∧
+    (F2b.failsOf false true).flatten.count 7 = 2 := by
+  refine ⟨?_, ?_, ?_⟩ <;>
+    simp [F2b.failsOf, F2b.start, F2b.sets, F2.env, F2b.h3, F2b.h7d, F2b.h7n,
+      handleUser, handleClose, advance, advanceFuel, stateStep, checkLocal, checkCommit,
+      checkRemoteDangling, construct, haveChainActions,
+      shouldGoOnChain, sub32, U32, classifyOut, classifyIn, Htlc.dust, newHtlcSet, mapOfList,
+      insertByIndex, mergeRemote, hasIndex, actionsOf, indexSet, dedupNat, failBatch,
+      Out.append, prepResolvers, Resolutions.isEmpty,
+      Sets.isEmpty, HtlcSet.isEmpty, classifyDangling, resolverFor, outU32]
+
+/-! ### Finding F2c: failed back at broadcast although the output is on the commitment that confirms
+
+Clause 4 of the property, read literally ("an upstream fail-back is never issued for an offered
+HTLC that still has an output on the confirmed commitment"), is violated on the path
+broadcast → remote confirmation: `no_failback_with_output_arb` only covers the fails issued while
+the confirmation is handled. -/
+
+namespace F2c
+
+/-- offered HTLC 5: dust on OUR commitment, output 0 on the peer's. -/
+def hLocal : Htlc := { index := 5, incoming := false, amt := 600000, refundTimeout := 700, outputIndex := -1, hash := 1 }
+def hRemote : Htlc := { hLocal with outputIndex := 0 }
+def sets : Sets := { loc := newHtlcSet [hLocal], rem := newHtlcSet [hRemote], pend := {} }
+def start : Arb := { state := .default, active := sets }
+def afterUser (choice : AState → Bool) : Arb × Out := handleUser F2.env start 100 choice
+def afterClose (choice : AState → Bool) : Arb × Out :=
+  handleClose F2.env (afterUser choice).1 (.remoteForce ⟨.rem, sets⟩ { outOuts := [0] } 102) choice
+
+end F2c
+
+/-- user force close fails HTLC 5 upstream (dust on ours); then the REMOTE commitment confirms, on
+    which HTLC 5 has an output: it gets an outgoing-contest resolver there — a fail-back was issued
+    for an HTLC that has an output on the confirmed commitment. For every iteration choice. -/
+theorem failback_before_confirmation_with_output (choice : AState → Bool) :
+    (F2c.afterUser choice).2.fails = [[5]] ∧
+    F2c.hRemote ∈ (F2c.sets.get .rem).outgoing ∧ F2c.hRemote.dust = false ∧
+    (F2c.afterClose choice).2.resolvers = [(.outContest, 5)] ∧
+    (F2c.afterClose choice).2.fails = [] := by
+  refine ⟨?_, ?_, ?_, ?_, ?_⟩ <;>
+    simp [F2c.afterUser, F2c.afterClose, F2c.start, F2c.sets, F2.env, F2c.hLocal, F2c.hRemote,
+      handleUser, handleClose, advance, advanceFuel, stateStep, checkLocal, checkCommit,
+      checkRemote, checkRemoteDangling, checkRemoteDiff, construct, haveChainActions,
+      shouldGoOnChain, sub32, U32, classifyOut, classifyIn, Htlc.dust, newHtlcSet, mapOfList,
+      insertByIndex, mergeRemote, hasIndex, actionsOf, indexSet, dedupNat, failBatch,
+      Out.append, confRemote, otherRemote, prepResolvers, Resolutions.isEmpty, Sets.get,
+      Sets.isEmpty, HtlcSet.isEmpty, classifyDangling, resolverFor, outU32]
 
 /-! ### non-vacuity of the hypotheses -/
 
